@@ -67,6 +67,14 @@ func genC13(r *sim.Rand, tier string) *sim.Case {
 			c.Ops = append(c.Ops, sim.Op{K: "reopen"})
 		case x == 4:
 			c.Ops = append(c.Ops, sim.Op{K: "check"})
+		case x == 6 || (x == 7 && shape == 9):
+			// a record about as large as, or larger than, a whole segment (the writer
+			// gives it a segment of its own; replay must still return it)
+			seg := int(c.Cfg["segment_size"])
+			if seg < c13MinSegment {
+				seg = c13MinSegment
+			}
+			c.Ops = append(c.Ops, sim.Op{K: "app", A: int64(r.Intn(4)), B: int64(seg + r.Pick(-9, -8, 0, 1, 5000)), C: int64(r.Intn(3)), D: int64(r.Intn(4) / 3)})
 		case x == 5 && shape >= 6:
 			// A record that exactly fills, or misses by a few bytes, the active segment.
 			c.Ops = append(c.Ops, sim.Op{K: "fillseg", A: int64(r.Intn(4)), B: int64(r.Intn(7)) - 3, C: int64(r.Intn(3))})
@@ -82,7 +90,10 @@ func genC13(r *sim.Rand, tier string) *sim.Case {
 			case y < 17:
 				sz = 100 + r.Intn(1500)
 			default:
-				if shape == 9 {
+				if shape == 9 && r.Intn(3) == 0 {
+					// a record larger than a whole segment (the writer gives it a segment of its own)
+					sz = c13MinSegment + r.Pick(-9, -8, 0, 1, 4096, 70000)
+				} else if shape == 9 {
 					sz = 20000 + r.Intn(20961) // up to 40 KiB
 				} else if shape >= 6 {
 					sz = 2000 + r.Intn(6000)
@@ -269,8 +280,11 @@ func execC13(t *testing.T, c *sim.Case) *sim.Result {
 			if n < 0 {
 				n = 0
 			}
-			if n > 40<<10 {
-				n = 40 << 10
+			if n > 256<<10 {
+				n = 256 << 10
+			}
+			if int64(n) >= w.segSize()-9 {
+				res.Probes["record_as_large_as_a_segment"]++
 			}
 			batch = append(batch, wal.Record{Type: wal.RecordType(uint64(op.A) % 4), Payload: fill(n, op.C, uint64(i)+1)})
 			if op.D%2 == 0 || len(batch) >= 4 {
